@@ -775,10 +775,18 @@ class SymAtoms(_Atoms):
             for constraint in self.constraints:
                 if hasattr(constraint, "adjust_cell"):
                     constraint.adjust_cell(self, new)
+        # both updates are in place, as in ase (`self.positions[:] = ...`, `self.cell[:] = cell`): an object holding a
+        # reference to atoms.positions or atoms.cell sees the new values
         if scale_atoms:
             M = inv3(self.cell.array) @ new.array
-            self.arrays["positions"] = objectify(np.asarray(self.arrays["positions"], dtype=object) @ M)
-        self._cellobj = new
+            pos = self.arrays["positions"]
+            newpos = np.asarray(pos, dtype=object) @ M
+            if pos.dtype == object:
+                pos[...] = newpos
+            else:
+                self.arrays["positions"] = objectify(newpos)
+        cur = self.cell
+        cur.array[...] = new.array
 
     @property
     def cell(self):
@@ -828,9 +836,14 @@ class SymAtoms(_Atoms):
         a = np.asarray(a, dtype=object if (b.dtype == object or has_sym(a)) else None)
         if a.shape != b.shape:
             raise ValueError(f'Array "{name}" has wrong shape {a.shape} != {b.shape}.')
-        if b.dtype == object or a.dtype == object:
+        if b.dtype == object:
+            # in place, as ase does (`b[:] = a`): whoever holds a reference to the array sees the new content
+            b[...] = np.array(a, dtype=object)
+        elif a.dtype == object:
+            # a float array receiving symbols has to change dtype: the only case that rebinds (arrays that may
+            # receive symbols are created with object dtype from the start, see mcsim.make_atoms)
             n = np.array(a, dtype=object).view(LArr)
-            n.ldtype = getattr(b, "ldtype", None) or (b.dtype if b.dtype != object else np.dtype(float))
+            n.ldtype = getattr(b, "ldtype", None) or b.dtype
             self.arrays[name] = n
         else:
             b[:] = a
